@@ -209,6 +209,8 @@ def _unwrap_tuple(tm):
 
 
 def check(run, prog, tier):
+    from . import model as _model
+    _model.audit(run, prog, 'C19')
     run.explanation = (
         "The matching predicates are loop-free; their path sets are enumerated (properties of the entry "
         "inlined) and every branch condition kept as a formula over the id/version fields.  W0 establishes "
